@@ -108,7 +108,12 @@ Record inv (b : bst) (vis : list nat) (cur : option (nat * nat)) : Prop := {
   (* provider nodes other than the root are exactly the entries of the provider-node map, one per provider *)
   i_prov_pn : forall n pi, n <> 0 -> nth_error (nodes b) n = Some (NProv pi) -> In (pi, n) (pn b);
   i_pn_nodup : NoDup (map fst (pn b));
-  i_nonempty : 0 < length (nodes b) }.
+  i_nonempty : 0 < length (nodes b);
+  (* counting: every node but the root is registered in exactly one of the two maps, whose keys come from the provider map
+     and from requirement lists - this bounds the number of nodes, hence the fuel the search needs *)
+  i_count : length (nodes b) = 1 + length (pn b) + length (an b);
+  i_pn_pm : forall pi n, In (pi, n) (pn b) -> exists t gi, pm t = Some (pi, gi);
+  i_an_req : forall t n, In (t, n) (an b) -> exists pc i, nth_error (requires pc) i = Some t }.
 
 Lemma nreq_of_app b b' n extra : nodes b' = nodes b ++ extra -> n < length (nodes b) -> nreq_of b' n = nreq_of b n.
 Proof. intros E H. unfold nreq_of. rewrite E. rewrite nth_error_app1 by auto. auto. Qed.
@@ -120,10 +125,12 @@ Lemma new_node_inv b vis cur k (pnx : list (nat*nat)) (anx : list (N*nat)) :
   (forall t n, In (t, n) anx -> nth_error (nodes b ++ [k]) n = Some (NArg t)) ->
   (forall n t, nth_error (nodes b ++ [k]) n = Some (NArg t) -> In (t, n) anx) -> NoDup (map fst anx) -> (forall t n, In (t, n) anx -> pm t = None) ->
   (forall n pi, n <> 0 -> nth_error (nodes b ++ [k]) n = Some (NProv pi) -> In (pi, n) pnx) -> NoDup (map fst pnx) ->
+  S (length (nodes b)) = 1 + length pnx + length anx -> (forall pi n, In (pi, n) pnx -> exists t gi, pm t = Some (pi, gi)) ->
+  (forall t n, In (t, n) anx -> exists pc i, nth_error (requires pc) i = Some t) ->
   inv b vis cur ->
   inv {| nodes := nodes b ++ [k]; red := red b; out := out b; pn := pnx; an := anx; queue := queue b ++ [length (nodes b)] |} vis cur.
 Proof.
-  intros Hpn Han Hpnn Hann Harg Hand Hapm Hprov Hpnd I. set (n2 := length (nodes b)).
+  intros Hpn Han Hpnn Hann Harg Hand Hapm Hprov Hpnd Hcnt Hpp Har I. set (n2 := length (nodes b)).
   assert (Hlt : forall n, (In n (queue b) \/ In n vis \/ exists j, cur = Some (n, j)) -> n < length (nodes b))
     by (intros n H; apply (i_part _ _ _ I); exact H).
   assert (Hfresh : ~ In n2 (queue b) /\ ~ In n2 vis /\ (forall j, cur <> Some (n2, j))).
@@ -169,6 +176,9 @@ Proof.
   - exact Hprov.
   - exact Hpnd.
   - rewrite app_length. simpl. lia.
+  - rewrite app_length. simpl. lia.
+  - exact Hpp.
+  - exact Har.
 Qed.
 
 Lemma assocn_In {A} k (l : list (nat * A)) v : assocn k l = Some v -> In (k, v) l.
@@ -177,10 +187,11 @@ Lemma assocN_In {A} k (l : list (N * A)) v : assocN k l = Some v -> In (k, v) l.
 Proof. induction l as [|[k' v'] r IH]; simpl; [discriminate|]. destruct (N.eqb k k') eqn:E; [intros H; inversion H; apply N.eqb_eq in E; subst; left; auto | intros H; right; auto]. Qed.
 
 Lemma resolve_inv b vis cur t b' n2 sx : inv b vis cur -> resolve b t = (b', n2, sx) ->
+  (exists pc i, nth_error (requires pc) i = Some t) ->
   inv b' vis cur /\ n2 < length (nodes b') /\ (forall n, n < length (nodes b) -> nth_error (nodes b') n = nth_error (nodes b) n) /\
   length (nodes b) <= length (nodes b') /\ (forall pi, nth_error (nodes b') n2 = Some (NProv pi) -> sx < nprovides pi).
 Proof.
-  intros I R. unfold resolve in R. destruct (pm t) as [[pi gi]|] eqn:Pm.
+  intros I R Hreq. unfold resolve in R. destruct (pm t) as [[pi gi]|] eqn:Pm.
   - destruct (assocn pi (pn b)) as [m|] eqn:A.
     + inversion R; subst. apply assocn_In in A. split; auto. split; [apply (i_pn _ _ _ I pi); auto|]. split; auto. split; auto.
       intros pi' H. rewrite (i_pn_node _ _ _ I _ _ A) in H. inversion H; subst. eapply pm_ok; eauto.
@@ -204,6 +215,9 @@ Proof.
            { clear - A. induction (pn b) as [|[k v] r IHr]; simpl in *; [tauto|]. destruct (Nat.eqb_spec pi k) as [->|Hne]; [discriminate|]. intros [E|E]; [congruence|apply IHr; auto]. }
            pose proof (i_pn_nodup _ _ _ I) as ND. clear - ND Hnin. induction (map fst (pn b)) as [|x l IHl]; simpl; [constructor; auto; constructor|].
            inversion ND; subst. constructor; [intro H; apply in_app_or in H; destruct H as [H|[H|[]]]; [auto | subst; apply Hnin; left; auto] | apply IHl; auto; intro; apply Hnin; right; auto].
+        -- rewrite app_length. simpl. pose proof (i_count _ _ _ I). lia.
+        -- intros p n H. apply in_app_or in H. destruct H as [H|[H|[]]]; [apply (i_pn_pm _ _ _ I p n H) | inversion H; subst; eauto].
+        -- apply (i_an_req _ _ _ I).
       * rewrite app_length. simpl. lia.
       * intros n Hn. rewrite nth_error_app1; auto.
       * rewrite app_length. lia.
@@ -232,6 +246,9 @@ Proof.
            assert (Hn : n = length (nodes b)) by (apply nth_error_Some_lt in H; rewrite app_length in H; simpl in H; lia).
            subst n. rewrite nth_error_app2 in H by lia. rewrite Nat.sub_diag in H. discriminate.
         -- apply (i_pn_nodup _ _ _ I).
+        -- rewrite app_length. simpl. pose proof (i_count _ _ _ I). lia.
+        -- apply (i_pn_pm _ _ _ I).
+        -- intros t0 n H. apply in_app_or in H. destruct H as [H|[H|[]]]; [apply (i_an_req _ _ _ I t0 n H) | inversion H; subst; exact Hreq].
       * rewrite app_length. simpl. lia.
       * intros n Hn. rewrite nth_error_app1; auto.
       * rewrite app_length. lia.
@@ -316,18 +333,26 @@ Proof.
   - apply (i_prov_pn _ _ _ I).
   - apply (i_pn_nodup _ _ _ I).
   - apply (i_nonempty _ _ _ I).
+  - apply (i_count _ _ _ I).
+  - apply (i_pn_pm _ _ _ I).
+  - apply (i_an_req _ _ _ I).
 Qed.
 
 Lemma do_reqs_inv : forall ts b vis n1 k, inv b vis (Some (n1, k)) -> k + length ts = nreq_of b n1 ->
-  (forall pc, nth_error (nodes b) n1 = Some (NProv pc) -> ts = skipn k (requires pc)) ->
+  (exists pc, nth_error (nodes b) n1 = Some (NProv pc) /\ ts = skipn k (requires pc)) ->
   let b' := do_reqs b n1 k ts in
   inv b' vis (Some (n1, nreq_of b n1)) /\ length (nodes b) <= length (nodes b') /\
   (forall n, n < length (nodes b) -> nth_error (nodes b') n = nth_error (nodes b) n).
 Proof.
-  induction ts as [|t r IH]; intros b vis n1 k I Hk Hts; simpl.
+  induction ts as [|t r IH]; intros b vis n1 k I Hk Hts0; simpl.
   - rewrite Nat.add_0_r in Hk. subst. auto.
   - simpl in Hk. destruct (resolve b t) as [[b1 n2] sx] eqn:R.
-    destruct (resolve_inv _ _ _ _ _ _ _ I R) as (I1 & H2 & Hsame & Hlen & Hsx).
+    destruct Hts0 as (pc0 & Hpc0 & Hts0).
+    assert (Hts : forall pc, nth_error (nodes b) n1 = Some (NProv pc) -> t :: r = skipn k (requires pc)) by (intros pc Hpc; rewrite Hpc0 in Hpc; inversion Hpc; subst; exact Hts0).
+    assert (Hskip0 : forall (A : Type) (l : list A) k x r0, skipn k l = x :: r0 -> nth_error l k = Some x /\ skipn (S k) l = r0).
+    { intros A l. induction l as [|a l' IHl]; intros k0 x r0 E; [destruct k0; discriminate|]. destruct k0; simpl in *; [inversion E; auto | apply IHl; auto]. }
+    assert (Hreq : exists pc i, nth_error (requires pc) i = Some t) by (exists pc0, k; symmetry in Hts0; apply Hskip0 in Hts0; apply Hts0).
+    destruct (resolve_inv _ _ _ _ _ _ _ I R Hreq) as (I1 & H2 & Hsame & Hlen & Hsx).
     pose proof (resolve_res _ _ _ _ _ _ _ I R) as Hrr.
     assert (Hn1 : n1 < length (nodes b)) by (apply (i_part _ _ _ I); right; right; eauto).
     assert (Hq : nreq_of b1 n1 = nreq_of b n1) by (unfold nreq_of; rewrite Hsame; auto).
@@ -336,7 +361,7 @@ Proof.
     assert (I2 : inv (add_edge b1 n2 sx n1 k) vis (Some (n1, S k))).
     { apply add_edge_inv; auto; [lia|]. intros pc Hpc. rewrite Hsame in Hpc by auto. specialize (Hts pc Hpc). symmetry in Hts. apply Hskip in Hts. exists t. split; [apply Hts|exact Hrr]. }
     destruct (IH _ _ _ _ I2) as (I3 & L3 & S3); [rewrite nreq_add_edge, Hq; lia| |].
-    { intros pc Hpc. cbn [add_edge nodes] in Hpc. rewrite Hsame in Hpc by auto. specialize (Hts pc Hpc). symmetry in Hts. apply Hskip in Hts. symmetry. apply Hts. }
+    { exists pc0. cbn [add_edge nodes]. rewrite Hsame by auto. split; [exact Hpc0|]. symmetry in Hts0. apply Hskip0 in Hts0. symmetry. apply Hts0. }
     rewrite nreq_add_edge, Hq in I3. split; auto. split; [simpl in L3; lia|].
     intros n Hn. rewrite S3 by (simpl; lia). simpl. auto.
 Qed.
@@ -378,6 +403,9 @@ Proof.
   - apply (i_prov_pn _ _ _ I).
   - apply (i_pn_nodup _ _ _ I).
   - apply (i_nonempty _ _ _ I).
+  - apply (i_count _ _ _ I).
+  - apply (i_pn_pm _ _ _ I).
+  - apply (i_an_req _ _ _ I).
 Qed.
 
 (* finishing a node: all of its parameters have been resolved *)
@@ -410,6 +438,9 @@ Proof.
   - apply (i_prov_pn _ _ _ I).
   - apply (i_pn_nodup _ _ _ I).
   - apply (i_nonempty _ _ _ I).
+  - apply (i_count _ _ _ I).
+  - apply (i_pn_pm _ _ _ I).
+  - apply (i_an_req _ _ _ I).
 Qed.
 
 Lemma loop_inv : forall fuel b vis b' vis', inv b vis None -> loop fuel b vis = Some (b', vis') ->
@@ -426,8 +457,8 @@ Proof.
       eapply IH; [|exact H]. apply finish_inv. unfold nreq_of, setq. cbn [nodes]. rewrite E. exact I0.
     + pose proof (do_reqs_inv (requires pi) (setq b q) vis n1 0 I0) as D. simpl in D.
       assert (Hlen : length (requires pi) = nreq_of (setq b q) n1) by (unfold nreq_of, setq; cbn [nodes]; rewrite E; auto).
-      assert (Hts0 : forall pc, nth_error (nodes (setq b q)) n1 = Some (NProv pc) -> requires pi = skipn 0 (requires pc)).
-      { intros pc Hpc. unfold setq in Hpc. cbn [nodes] in Hpc. rewrite E in Hpc. inversion Hpc; subst. reflexivity. }
+      assert (Hts0 : exists pc, nth_error (nodes (setq b q)) n1 = Some (NProv pc) /\ requires pi = skipn 0 (requires pc)).
+      { exists pi. unfold setq. cbn [nodes]. split; [exact E | reflexivity]. }
       destruct (D Hlen Hts0) as (I1 & L1 & S1). eapply IH; [|exact H]. apply finish_inv.
       assert (nreq_of (do_reqs (setq b q) n1 0 (requires pi)) n1 = nreq_of (setq b q) n1).
       { unfold nreq_of. rewrite S1; auto. }
@@ -465,6 +496,51 @@ Proof.
   destruct (nth_error (nodes b) n1) as [[t|pi]|]; [eapply IH; eauto | | eapply IH; eauto].
   eapply IH; [|exact L]. apply do_reqs_hasout. exact Hq.
 Qed.
+
+(* ---- the search never runs out of fuel: each iteration pops one node, and every node is pushed once ---- *)
+Lemma resolve_counts b t b' n2 sx : resolve b t = (b', n2, sx) ->
+  length (queue b') + length (nodes b) = length (queue b) + length (nodes b').
+Proof.
+  unfold resolve. destruct (pm t) as [[pi gi]|].
+  - destruct (assocn pi (pn b)); intros R; inversion R; subst; cbn [queue nodes]; rewrite ?app_length; simpl; lia.
+  - destruct (assocN t (an b)); intros R; inversion R; subst; cbn [queue nodes]; rewrite ?app_length; simpl; lia.
+Qed.
+Lemma do_reqs_counts : forall ts b n1 i,
+  length (queue (do_reqs b n1 i ts)) + length (nodes b) = length (queue b) + length (nodes (do_reqs b n1 i ts)).
+Proof.
+  induction ts as [|t r IH]; intros b n1 i; simpl; [lia|].
+  destruct (resolve b t) as [[b' n2] sx] eqn:R. pose proof (resolve_counts _ _ _ _ _ R) as C.
+  specialize (IH (add_edge b' n2 sx n1 i) n1 (S i)). cbn [add_edge queue nodes] in IH. lia.
+Qed.
+Section Total.
+Variable Nmax : nat.
+Hypothesis nodes_bound : forall b vis cur, inv b vis cur -> length (nodes b) <= Nmax.
+Lemma loop_total : forall fuel b vis, inv b vis None -> length (queue b) + (Nmax - length (nodes b)) < fuel ->
+  exists r, loop fuel b vis = Some r.
+Proof.
+  induction fuel as [|fuel IH]; intros b vis I HF; [lia|]. simpl.
+  destruct (queue b) as [|n1 q] eqn:Hq; [eauto|].
+  fold (setq b q). destruct (pop_inv _ _ _ _ I Hq) as (I0 & Hnv).
+  destruct (memn n1 vis) eqn:M; [apply memn_In in M; contradiction|].
+  assert (Hn1 : n1 < length (nodes b)) by (apply (i_part _ _ _ I); left; rewrite Hq; left; auto).
+  simpl in HF. cbn [setq nodes].
+  destruct (nth_error (nodes b) n1) as [[t|pi]|] eqn:E.
+  - apply IH; [|unfold setq; cbn [queue nodes]; lia]. apply finish_inv. unfold nreq_of, setq. cbn [nodes]. rewrite E. exact I0.
+  - pose proof (do_reqs_inv (requires pi) (setq b q) vis n1 0 I0) as D. simpl in D.
+    assert (Hlen : length (requires pi) = nreq_of (setq b q) n1) by (unfold nreq_of, setq; cbn [nodes]; rewrite E; auto).
+    assert (Hts0 : exists pc, nth_error (nodes (setq b q)) n1 = Some (NProv pc) /\ requires pi = skipn 0 (requires pc)).
+    { exists pi. unfold setq. cbn [nodes]. split; [exact E | reflexivity]. }
+    destruct (D Hlen Hts0) as (I1 & L1 & S1).
+    assert (I2 : inv (do_reqs (setq b q) n1 0 (requires pi)) (n1 :: vis) None).
+    { apply finish_inv.
+      assert (nreq_of (do_reqs (setq b q) n1 0 (requires pi)) n1 = nreq_of (setq b q) n1) by (unfold nreq_of; rewrite S1; auto).
+      rewrite H. exact I1. }
+    apply IH; [exact I2|].
+    pose proof (do_reqs_counts (requires pi) (setq b q) n1 0) as C. pose proof (nodes_bound _ _ _ I2) as B.
+    unfold setq in *. cbn [queue nodes] in *. lia.
+  - exfalso. apply nth_error_None in E. lia.
+Qed.
+End Total.
 
 (* ---- the graph facts the scheduler proofs assume ---- *)
 Section Final.
